@@ -30,6 +30,7 @@ class XResult:
     raw: str = ""
     hits: Dict[str, int] = field(default_factory=dict)
     paths: int = 0
+    paths_confirmed: int = 0
 
 
 def _run_one(target: str, timeout: int, per_path: int, env_extra: Dict[str, str]) -> XResult:
@@ -51,6 +52,7 @@ def _run_one(target: str, timeout: int, per_path: int, env_extra: Dict[str, str]
     wall = time.time() - t0
     hits: Dict[str, int] = {}
     paths = 0
+    paths_confirmed = 0
     if os.path.exists(side):
         for ln in open(side):
             try:
@@ -59,10 +61,11 @@ def _run_one(target: str, timeout: int, per_path: int, env_extra: Dict[str, str]
                 continue
             if d.get("k") == "path":
                 paths += 1
+                paths_confirmed += d.get("st") == "confirmed"
             elif d.get("k") == "known":
                 hits[d["id"]] = hits.get(d["id"], 0) + 1
         os.unlink(side)
-    res = XResult(target, "error", out.strip()[-1500:], wall=wall, raw=out[-4000:], hits=hits, paths=paths)
+    res = XResult(target, "error", out.strip()[-1500:], wall=wall, raw=out[-4000:], hits=hits, paths=paths, paths_confirmed=paths_confirmed)
     if "Confirmed over all paths" in out:
         res.status = "confirmed"
     elif re.search(r"error: (false|False) when calling|error: .* when calling", out):
@@ -124,9 +127,15 @@ def replay_call(module: str, call: str) -> Any:
 def fold(rep, module: str, results: List[XResult], pid_known_ids=None, twin_prefix="twin_"):
     """standard verdict handling: confirmed -> unsat; counterexample -> replay -> violation; others -> inconclusive.
     twins must be violated."""
+    xp = rep.coverage.setdefault("crosshair_paths", {"conditions": 0, "explored": 0, "confirmed": 0, "by_condition": {}})
     for r in results:
         fn = r.target.rsplit(".", 1)[-1]
         rep.solver_s += r.wall
+        xp["conditions"] += 1
+        xp["explored"] += r.paths
+        if not fn.startswith(twin_prefix):
+            xp["confirmed"] += r.paths_confirmed
+        xp["by_condition"][".".join(r.target.rsplit(".", 2)[-2:])] = [r.paths, r.paths_confirmed]
         for k, n in r.hits.items():
             # the harness saw a deviation it classifies as listed finding k: only acknowledged if the committed file lists it
             rep.violation({"harness_known": k}, {"module": module, "target": r.target, "hits": n}, f"{fn}: {n} explored paths deviate in the way classified as {k}")
